@@ -2236,9 +2236,24 @@ func createMatchFilterCriteria(k, v interface{}, opr LogicalOperator, qid uint64
 	return &criteria
 }
 
+// valueAsString returns the text of a query-DSL value: strings as they are,
+// numbers and booleans in their JSON spelling, "" for a missing value.
+func valueAsString(v interface{}) string {
+	switch t := v.(type) {
+	case string:
+		return t
+	case json.Number:
+		return t.String()
+	case nil:
+		return ""
+	default:
+		return fmt.Sprintf("%v", t)
+	}
+}
+
 func createMatchPhraseFilterCriteria(k, v interface{}, opr LogicalOperator, qid uint64) *FilterCriteria {
-	//match_phrase value will always be string
-	var rtInput = strings.TrimSpace(v.(string))
+	//match_phrase value is expected to be a string
+	var rtInput = strings.TrimSpace(valueAsString(v))
 	var matchWords = make([][]byte, 0)
 	for _, word := range strings.Split(rtInput, " ") {
 		matchWords = append(matchWords, [][]byte{[]byte(word)}...)
@@ -2256,7 +2271,7 @@ func createMatchPhraseFilterCriteria(k, v interface{}, opr LogicalOperator, qid 
 func createTermsFilterCriteria(k interface{}, val []interface{}, opr LogicalOperator) *FilterCriteria {
 	var matchWords = make([][]byte, 0)
 	for _, v := range val {
-		matchWords = append(matchWords, [][]byte{[]byte(v.(string))}...)
+		matchWords = append(matchWords, [][]byte{[]byte(valueAsString(v))}...)
 	}
 
 	criteria := FilterCriteria{MatchFilter: &MatchFilter{
@@ -2300,14 +2315,20 @@ func parseMultiMatch_nested(json_body interface{}, qid uint64) (*Condition, erro
 	var matchType string
 	var matchFields = make([]string, 0)
 
-	var colValue interface{}
+	var colValue string
+	hasColValue := false
 	switch t := json_body.(type) {
 	case map[string]interface{}:
 		for nestedKey, nestedValue := range t {
 			if nestedKey == "query" {
-				colValue = nestedValue.(string)
+				colValue = valueAsString(nestedValue)
+				hasColValue = true
 			} else if nestedKey == "type" {
-				matchType = nestedValue.(string)
+				typeStr, ok := nestedValue.(string)
+				if !ok {
+					return nil, errors.New("parseMultiMatch: Invalid type in multi_match query")
+				}
+				matchType = typeStr
 			} else if nestedKey == "fields" {
 				switch nvaltype := nestedValue.(type) {
 				case []interface{}:
@@ -2328,7 +2349,7 @@ func parseMultiMatch_nested(json_body interface{}, qid uint64) (*Condition, erro
 				opr = Or
 			}
 		}
-		if matchType == "" || colValue == nil {
+		if matchType == "" || !hasColValue {
 			return nil, errors.New("parseMultiMatch: Invalid multi_match query")
 		}
 		filterCondition := createMultiMatchFilterCriteria(matchFields, colValue, matchType, opr, qid)
